@@ -6,6 +6,7 @@ Line protocol for C20.  `T` = the measured library tables of the case:
 Cases:
     hs <tail> T st <stream> ch <n> <size>*n                      Listener.Handshake
     ad <0|1> <user> <pass> <tail> T st <stream> ch <n> <size>*n  SocksAdapter.handleHandshake + handleRequest
+    adc <0|1> <user> <pass> <tail> T st <stream> ch <n> <size>*n SocksAdapter.handleSocksConnection (no session): obs  w <written> left <n> closed <0|1>
     udp T d <datagram>                                           parseUDPHeader, then build + parse again
     ubp T h <host> p <port> pl <payload>                         buildUDPHeader, then parseUDPHeader
     conn|live <tail> cfg <mapping> <target> <secret> <hasTunnel> <tunnelOk> <hasRelay> <relayOk> <bindIP> <bindPort> T st <stream> ch <n> <size>*n
@@ -376,6 +377,12 @@ def runModel (ts : List String) : String :=
     match parseUbpCase rest with
     | some c => let o := modelUbp c; s!"b {hexOfBytes o.built} {uOutStr o.parsed}"
     | none => "bad-case"
+  | "adc" :: rest =>
+    match parseAdCase rest with
+    | some (cfg, c) =>
+      let r := adConnection c.ip cfg ⟨chunkBy c.chunks c.stream, c.tail⟩
+      s!"w {hexOfBytes r.1} left {r.2.flat.length} closed 1"
+    | none => "bad-case"
   | "conn" :: rest =>
     match parseConnCase rest with
     | some (cfg, c) => modelConn cfg c
@@ -414,6 +421,15 @@ def runHolds (caseToks obsToks : List String) : String :=
     match parseUbpCase rest, parseUbpObs obsToks with
     | some c, some o => boolStr (holdsBuild c.ip c.host c.port c.payload o)
     | some _, none => "false"
+    | none, _ => "bad-case"
+  | "adc" :: rest =>
+    match parseAdCase rest, obsToks with
+    | some (cfg, c), ["w", w, "left", n, "closed", cl] =>
+      match bytesOfHex w, n.toNat? with
+      | some w, some left =>
+        boolStr (decide (left ≤ c.stream.length) && holdsAdConn cfg c.stream w (c.stream.length - left) (cl == "1"))
+      | _, _ => "false"
+    | some _, _ => "false"
     | none, _ => "bad-case"
   | "conn" :: rest =>
     match parseConnCase rest, parseConnObs obsToks with
